@@ -340,11 +340,14 @@ func genNarrowProgram(r *RNG) []*tStmt {
 	if user {
 		g.line(0, "class Foo", "class-decl")
 		g.line(0, "end", "class-decl")
+		g.line(0, "class Bar", "class-decl")
+		g.line(0, "end", "class-decl")
 	}
 	env := nEnv{}
 	pool := []string{"Integer", "String", "Float", "Symbol", "NilClass", "NilClass"}
 	if user {
-		pool = append(pool, "Foo")
+		// two user classes: instances of both may meet in one union
+		pool = append(pool, "Foo", "Bar", "Foo", "Bar")
 	}
 	if r.Chance(1, 3) {
 		pool = append(pool, "Array<Integer>", "Array<String>", "Hash", "Hash")
@@ -480,7 +483,7 @@ func init() {
 			return judgeTyped(c, s.BlackBox(), &tc, "C10")
 		},
 		Run: func(c *CheckCtx) {
-			c.rule = "generated programs: 1-3 union-typed variables (ternaries, indexed array literals; variants Integer, String, Float, Symbol, NilClass, a user class, Array<Integer>, Array<String>, Hash; local or global names), 1-3 conditionals at top level or in the body of a top-level method, an instance method or a class method (globals assigned inside or at top level), each if/unless with optional elsif and else, nested up to depth 3; conditions x.nil?, !x.nil?, x.is_a?(C) and && chains over distinct variables, splitting the current variants into two non-empty sets, or (one condition in five) not splitting them at all - a class test of a variable already narrowed to that class, nil? of a non-nil variable, is_a? of a foreign class - where only the side that keeps every variant is judged; unrelated statements (assignments, calls, inner if/unless on `flag`) inside branches; every variable is probed with dbtp in every branch and after every conditional; oracle: the printed type, parsed as a set, equals the variants the branch admits, and the pre-conditional type afterwards (no branch assigns a probed variable). distinct_nontrivial = distinct programs"
+			c.rule = "generated programs: 1-3 union-typed variables (ternaries, indexed array literals; variants Integer, String, Float, Symbol, NilClass, one or two user classes, Array<Integer>, Array<String>, Hash; local or global names), 1-3 conditionals at top level or in the body of a top-level method, an instance method or a class method (globals assigned inside or at top level), each if/unless with optional elsif and else, nested up to depth 3; conditions x.nil?, !x.nil?, x.is_a?(C) and && chains over distinct variables, splitting the current variants into two non-empty sets, or (one condition in five) not splitting them at all - a class test of a variable already narrowed to that class, nil? of a non-nil variable, is_a? of a foreign class - where only the side that keeps every variant is judged; unrelated statements (assignments, calls, inner if/unless on `flag`) inside branches; every variable is probed with dbtp in every branch and after every conditional; oracle: the printed type, parsed as a set, equals the variants the branch admits, and the pre-conditional type afterwards (no branch assigns a probed variable). distinct_nontrivial = distinct programs"
 			c.assumptions = []string{"the false side of `a && b` admits every variant (nothing is known about either variable)", "candidates found in-process are confirmed on the plain binary"}
 			r := c.RNG.Sub(10)
 			n := c.N(300, 8000)
